@@ -96,7 +96,10 @@ HWalkCase(p) ==
              \o Rep([op |-> "next", it |-> 0], n) \o Rep([op |-> "next", it |-> 1], n)
              \o <<[op |-> "hget", kind |-> "info_req"], [op |-> "hfield", kind |-> "info_req", f |-> "requests"],
                   [op |-> "hget", kind |-> "entry"], [op |-> "hget", kind |-> "module_align"],
-                  [op |-> "hget", kind |-> "address"], [op |-> "hdbg", what |-> "hdr"], [op |-> "hdbg", what |-> "info_req"]>>,
+                  [op |-> "hget", kind |-> "address"], [op |-> "hdbg", what |-> "hdr"], [op |-> "hdbg", what |-> "info_req"],
+                  [op |-> "htags", it |-> 5], [op |-> "next", it |-> 5], [op |-> "hload"], [op |-> "next", it |-> 5],
+                  [op |-> "clone", it |-> 5, to |-> 6], [op |-> "clone", it |-> 6, to |-> 7], [op |-> "next", it |-> 7],
+                  [op |-> "htags", it |-> 8], [op |-> "next", it |-> 8]>>,
    desc |-> [area |-> "hwalk", L |-> p.L, hs |-> p.hs]]
 
 \* ---- HFields ----------------------------------------------------------------------------------------------
